@@ -126,6 +126,13 @@ func (fx *FuncCtx) libraryModel(st *State, callee *types.Func, qn string, recv V
 		}
 	case "sort":
 		return fx.sortModel(st, callee, call)
+	case "runtime":
+		if callee.Name() == "GOMAXPROCS" {
+			fx.eval(st, call.Args[0])
+			r := fx.freshConst("gomaxprocs", SInt)
+			st.assume(And(Ge(r, IntLit(1)), Lt(r, IntLit(1<<20))))
+			return r, true
+		}
 	}
 	return nil, false
 }
